@@ -1,10 +1,12 @@
 """C09 — reported regions agree with evaluation (sign convention, label sequence)."""
 from ..mir import Callee, Resolver, fmt, literals, walk, strip_sites as s, phi_table
 from . import prune
+from . import helpers
 from .prune import is_call
 
 LEVEL = 'other'
 RULES = {
+    'C09.R6': helpers.RULE_TEXT,
     'C09.R1': 'one closed sign convention: evaluate_decision tests (mat·x - bias) <= 0 and sets bit i for a satisfied row; both path-polytope builders map '
               'label 1 -> (+mat,+bias), label 0 -> (-mat,-bias) (same factor on both fields, other labels panic) on the predicate of the edge\'s source node',
     'C09.R3': 'path-condition stack discipline of PolyhedraGen::next: |predicates| = depth of the reported node after every call (also after deep returns and skips)',
@@ -21,7 +23,7 @@ WRAPPERS = {
     'AffTree::polyhedra_iter': ('PolyhedraIter::new(self.tree)', [], 'iterator over this tree'),
     'DfsNodeData::extract': ('tuple(self.depth, self.index, self.n_remaining)', [], '(depth, index, n_remaining) in this order'),
 }
-FLOORS = {'C09.R1': 4, 'C09.R2': 11, 'C09.R3': 1, 'C09.R4': 8, 'C09.R5': 10}
+FLOORS = {'C09.R6': 8, 'C09.R1': 4, 'C09.R2': 11, 'C09.R3': 1, 'C09.R4': 8, 'C09.R5': 10}
 EXPLANATION = 'The evaluator and the two region builders implement the same closed half-space per label, for every tree and input (exact arithmetic).'
 DOES_NOT_DECIDE = ('traversals started below the root with PolyhedraGen::with_root (the path above the start node is not reconstructed); disjoint interiors and coverage (set reasoning); '
                    'ordering/depth counters (C13)')
@@ -197,6 +199,7 @@ def polyhedra_iter_next(ctx):
 
 
 def run(ctx):
+    helpers.run_for(ctx)
     prune.check_wrappers(ctx, 'C09.R2', WRAPPERS)
     polyhedra_iter_next(ctx)
     F = ctx.facts
